@@ -288,6 +288,8 @@ package jet
 //@ func indirect
 //@   props C10 C07 C06 C12 C05
 //@   loop 0 invariant RvKind(old(v)) != 22 && RvKind(old(v)) != 20 ==> v == old(v)
+//@   loop 0 invariant RvIsNil(old(v)) ==> v == old(v)
+//@   ensures [a-nil-pointer-or-interface-is-reported-nil] {C06,C05} (RvKind(v) == 22 || RvKind(v) == 20) && RvIsNil(v) ==> isNil && rv == v
 //@   ensures [indirection-goes-through-every-pointer-and-interface] {C06,C05} !isNil ==> RvKind(rv) != 22 && RvKind(rv) != 20
 //@   ensures [a-nil-link-stops-the-indirection] {C06,C05} isNil ==> (RvKind(rv) == 22 || RvKind(rv) == 20) && RvIsNil(rv)
 //@   ensures [a-value-that-is-neither-pointer-nor-interface-is-returned-as-it-is] {C06,C05} RvKind(v) != 22 && RvKind(v) != 20 ==> rv == v && !isNil
@@ -313,8 +315,11 @@ package jet
 //@   ensures [lock-released] Held == old(Held)
 //@   loop 0 invariant true
 //@   callsite fieldByIndex 0 requires [field-paths-come-from-the-cache-of-the-values-type] {C06} has(cachedStructsFieldIndex, RvTypeOf(v)) && has(cachedStructsFieldIndex[RvTypeOf(v)], caller.key) && index == cachedStructsFieldIndex[RvTypeOf(v)][caller.key]
-//@   callsite fmt.Errorf count 10
-//@   callsite fmt.Errorf 7 requires [a-map-lookup-fails-only-for-a-key-that-cannot-be-converted] {C06,C17} !lastret("(reflect.Type).ConvertibleTo", 0)
+//@   callsite fmt.Errorf count 11
+//@   callsite fmt.Errorf 8 requires [a-map-lookup-fails-only-for-a-key-that-cannot-be-converted] {C06,C17} !lastret("(reflect.Type).ConvertibleTo", 0)
+//@   check [a-value-method-of-a-nil-pointer-is-an-error-not-a-callable] {C12,C06} result1 == nil && RvValid(result0) && result0 == lastret("(reflect.Value).MethodByName", 0) && lastret("indirect", 1) && RvKind(lastret("indirect", 0)) == 22 ==> !lastret("(reflect.Type).MethodByName", 1)
+//@   callsite (reflect.Type).MethodByName 0 requires [the-value-type-is-asked-for-the-same-method-name] {C12,C06} t == TElem(RvTypeOf(lastret("indirect", 0))) && name == indexAsStr
+//@   callsite (reflect.Value).MethodByName 0 requires [methods-are-looked-up-under-the-index-name] {C06} name == indexAsStr
 //@   callsite buildCache 0 requires [the-cache-is-built-for-the-values-type] {C06} typ == lastret("(reflect.Value).Type", 0) && fresh(cache) && len(parent) == 0
 //@ func fieldByIndex
 //@   props C06 C12 C10 C11 C17
@@ -324,7 +329,8 @@ package jet
 //@   modifies type sliceRanger.i, type sliceRanger.v, type mapRanger.iter, type mapRanger.hasMore, type chanRanger.v
 //@   ensures [a-ranger-or-an-error] err == nil ==> r != nil && cleanup != nil
 //@   callsite (pooledRanger).Setup 0 requires [the-ranger-ranges-the-value-behind-every-pointer-and-interface] {C05} v == lastret("indirect", 0) && RvKind(v) != 22 && RvKind(v) != 20
-//@   ensures [a-value-that-is-a-ranger-ranges-itself] {C05} RvValid(old(v)) && TImpl(RvTypeOf(old(v)), rangerType) ==> err == nil && r == RvInterface(old(v))
+//@   ensures [a-value-that-is-a-ranger-ranges-itself] {C05} RvValid(old(v)) && TImpl(RvTypeOf(old(v)), rangerType) && !(RvKind(old(v)) == 20 && RvIsNil(old(v))) ==> err == nil && r == RvInterface(old(v))
+//@   ensures [a-nil-ranger-is-not-rangeable] {C05,C12} RvValid(old(v)) && RvKind(old(v)) == 20 && RvIsNil(old(v)) ==> err != nil
 
 // ---- evaluation: every evaluator leaves S(st) as it found it on normal return ----------------------
 //@ func (*Runtime).evalPrimaryExpressionGroup
@@ -913,20 +919,23 @@ package jet
 // reflect.ValueOf(make(map[string]interface{})): a non-nil map keyed by string whose elements may be anything
 //@ axiom forallT(i, "interface{}", istype(i, "map[string]interface{}") ==> RvKeyType(RvTypeOf(RvOf(i))) == stringType && (refof(i) != 0 ==> !RvIsNil(RvOf(i))) && forallT(t, "reflect.Type", TAssign(t, TElem(RvTypeOf(RvOf(i))))))
 //@ axiom funcType != nil && cachedStructsFieldIndex != nil && ioutil.Discard != nil
+//@ axiom TKind(funcType) == 19
 //@ axiom forallT(v, "reflect.Value", RvKind(v) == 19 && !RvIsNil(v) && istype(RvInterface(v), "Func") ==> as(RvInterface(v), "Func") != nil)
 //@ axiom forallT(t, "reflect.Type", forallT(u, "reflect.Type", TKind(t) == 23 && TKind(TElem(t)) == 8 && TKind(u) == 24 ==> TConv(t, u)))
 //@ axiom forallT(v, "reflect.Value", RvValid(v) && RvTypeOf(v) == safeWriterType ==> istype(RvInterface(v), "SafeWriter"))
-//@ axiom forallT(v, "reflect.Value", TImpl(RvTypeOf(v), rendererType) ==> implementsI(RvInterface(v), "Renderer"))
-//@ axiom forallT(v, "reflect.Value", TImpl(RvTypeOf(v), rangerType) ==> implementsI(RvInterface(v), "Ranger"))
-//@ axiom forallT(v, "reflect.Value", TAssign(funcType, RvTypeOf(v)) ==> istype(RvInterface(v), "Func"))
+// (a nil value of an interface type - a struct field of type Renderer that was never set - has that static type
+// and holds nothing: Interface() is nil and implements no interface)
+//@ axiom forallT(v, "reflect.Value", RvValid(v) && TImpl(RvTypeOf(v), rendererType) && !(RvKind(v) == 20 && RvIsNil(v)) ==> implementsI(RvInterface(v), "Renderer"))
+//@ axiom forallT(v, "reflect.Value", RvValid(v) && TImpl(RvTypeOf(v), rangerType) && !(RvKind(v) == 20 && RvIsNil(v)) ==> implementsI(RvInterface(v), "Ranger"))
+//@ axiom forallT(v, "reflect.Value", RvValid(v) && RvTypeOf(v) == funcType ==> istype(RvInterface(v), "Func"))
 
 // ---- the built-in function table (default.go init) --------------------------------------------------------
 // RvFn(v): the function a reflect.Value made from a func value holds
 //@ ufunc RvFn(reflect.Value) int
 //@ axiom forallT(i, "interface{}", RvFn(RvOf(i)) == refof(i))
 //@ func init#1
-//@   props C14
-//@   modifies *
+//@   props C14 C05
+//@   modifies global defaultVariables
 //@   check [string-builtins-are-the-documented-go-functions] {C14} RvFn(defaultVariables["lower"]) == strings.ToLower && RvFn(defaultVariables["upper"]) == strings.ToUpper && RvFn(defaultVariables["hasPrefix"]) == strings.HasPrefix && RvFn(defaultVariables["hasSuffix"]) == strings.HasSuffix && RvFn(defaultVariables["repeat"]) == strings.Repeat && RvFn(defaultVariables["replace"]) == strings.Replace && RvFn(defaultVariables["split"]) == strings.Split && RvFn(defaultVariables["trimSpace"]) == strings.TrimSpace
 //@   check [escaping-builtins-are-the-documented-go-functions] {C14} RvFn(defaultVariables["html"]) == html.EscapeString && RvFn(defaultVariables["url"]) == url.QueryEscape && RvFn(defaultVariables["json"]) == json.Marshal && RvFn(defaultVariables["writeJson"]) == jsonRenderer
 
